@@ -7,6 +7,9 @@ mod c07;
 mod c15;
 mod c10;
 mod c04;
+mod pos;
+mod c17;
+mod c01;
 
 use util::*;
 
@@ -33,6 +36,9 @@ fn main() {
     "C10" => c10::run(&mut out, &mut rng, thorough),
     "C04" => c04::run_c04(&mut out, &mut rng, thorough),
     "C14" => c04::run_c14(&mut out, &mut rng, thorough),
+    "C17" => c17::run(&mut out, &mut rng, thorough),
+    "C01" => c01::run_c01(&mut out, &mut rng, thorough),
+    "C02" => c01::run_c02(&mut out, &mut rng, thorough),
     "C08" => c07::run_c08(&mut out, &mut rng, thorough),
     _ => { eprintln!("unknown property {}", prop); std::process::exit(2); }
   }
